@@ -15,6 +15,21 @@ fn split_id(id: Option<&String>) -> (String, Value) {
 
 /// obs = {panicked, err, cands: [{value, k, id, hidden}]}
 pub fn complete_obs(cmd: &Command, name: &[u8], words: &Value, i: usize) -> Value {
+    complete_obs_on(cmd.clone(), name, words, i)
+}
+/// the same call on a Command value that has already parsed the words before the cursor (the parser builds lazily:
+/// levels it walked through are built, their children are not)
+pub fn complete_obs_reused(cmd: &Command, name: &[u8], words: &Value, i: usize) -> Value {
+    let mut c = cmd.clone();
+    let mut argv: Vec<OsString> = if cmd.is_no_binary_name_set() { vec![] } else { vec![os(name)] };
+    for w in words.as_array().unwrap().iter().take(i.saturating_sub(1)) {
+        argv.push(os(&bytes_of(w)));
+    }
+    let _ = guarded(std::panic::AssertUnwindSafe(|| { let _ = c.try_get_matches_from_mut(argv); }));
+    complete_obs_on(c, name, words, i)
+}
+fn complete_obs_on(cmd: Command, name: &[u8], words: &Value, i: usize) -> Value {
+    let cmd = &cmd;
     // a no_binary_name command is completed without argv[0] (the cursor index shifts with it)
     let (mut args, i): (Vec<OsString>, usize) = if cmd.is_no_binary_name_set() { (vec![], i - 1) } else { (vec![os(name)], i) };
     for w in words.as_array().unwrap() {
@@ -66,11 +81,19 @@ pub fn complete_replay(defs: &str, input: &str, out: &str, div: &str) {
             // new-argument observation that offers option/subcommand candidates for judgement in sampled form
             if ok && cands.iter().any(|c| c["k"] != "") { rep.count("with_candidates", 1); }
         }
-        let line = json!({"d": di + 1, "words": r["words"], "i": i, "obs": {"panicked": obs["panicked"], "err": obs["err"], "cands": obs["cands"]}});
+        let line = json!({"d": di + 1, "words": r["words"], "i": i, "reused": false, "obs": {"panicked": obs["panicked"], "err": obs["err"], "cands": obs["cands"]}});
+        // "any command": also one that has already been used for a parse of the preceding words
+        let obs2 = complete_obs_reused(cmd, &bytes_of(&d.recs[di]["cmd"]["name"]), &r["words"], i);
+        if obs2["panicked"] != obs["panicked"] || obs2["cands"] != obs["cands"] {
+            rep.count("reused_command_differs", 1);
+            rep.mismatch(json!({"label": d.recs[di]["label"], "reused": true, "i": i, "obs": obs2, "fresh": obs["cands"],
+                                "words": r["words"].as_array().unwrap().iter().map(|w| String::from_utf8_lossy(&bytes_of(w)).into_owned()).collect::<Vec<_>>()}));
+            dw.put(&json!({"d": di + 1, "words": r["words"], "i": i, "reused": true, "obs": {"panicked": obs2["panicked"], "err": obs2["err"], "cands": obs2["cands"]}}));
+        }
         if !ok {
             rep.mismatch(json!({"label": d.recs[di]["label"], "words": r["words"].as_array().unwrap().iter().map(|w| String::from_utf8_lossy(&bytes_of(w)).into_owned()).collect::<Vec<_>>(), "i": i, "obs": obs, "must": r["must"]}));
             dw.put(&line);
-        } else if r["newarg"] == true && cands.iter().any(|c| c["k"] != "") {
+        } else if (r["newarg"] == true || r["helpwalk"] == true) && cands.iter().any(|c| c["k"] != "") {
             // judged by Trace_Complete (soundness against the parser's level); written to the "all" stream
             dw.put(&line);
             rep.sample(json!({"def": d.recs[di]["label"], "words": r["words"].as_array().unwrap().iter().map(|w| String::from_utf8_lossy(&bytes_of(w)).into_owned()).collect::<Vec<_>>(),
